@@ -92,7 +92,15 @@ def build(flavours):
                 # violated at compile time; every other TU is still linked so that the other checks keep running.
                 r2 = subprocess.run(base + ['-k'], stdout=subprocess.PIPE, stderr=subprocess.STDOUT, text=True)
                 names = [l.strip() for l in open(os.path.join(BUILDROOT, 'gen', 'fleet.list')) if l.strip()]
-                missing = [n for n in names if not os.path.exists(os.path.join(BUILDROOT, fl, n + '.o'))]
+                # units whose compilation failed: named by make's error lines (a stale object of an earlier build may
+                # still exist), plus any object that is simply absent
+                failed = set(re.findall(r'\*\*\* \[[^\]]*?/(fleet_[A-Za-z0-9_]+)\.o\] Error', r2.stdout))
+                missing = [n for n in names if n in failed or not os.path.exists(os.path.join(BUILDROOT, fl, n + '.o'))]
+                for n in missing:
+                    try:
+                        os.unlink(os.path.join(BUILDROOT, fl, n + '.o'))
+                    except OSError:
+                        pass
                 if missing and all(n.endswith('_mnode') for n in missing):
                     r3 = subprocess.run(base + ['SKIP=' + ' '.join(missing)], stdout=subprocess.PIPE, stderr=subprocess.STDOUT, text=True)
                     if r3.returncode == 0:
